@@ -250,7 +250,7 @@ def h_seen(d, lang, sx, sy, lf, symbase, variant='two'):
     return True
 
 
-def h_unary(d, lang, nkeys, sk, lf):
+def h_unary(d, lang, nkeys, sk, lf, table_kind='dict'):
     """tables with symbolic keys: exactly the configured targets in order for a key, nothing otherwise"""
     from depccg.cat import Category
     g = grammar(lang)
@@ -259,7 +259,8 @@ def h_unary(d, lang, nkeys, sk, lf):
     x = Builder(d, 'x', **kw).build(sk)
     pool = [Category.parse(t) for t in (['NP', 'S/(S\\NP)', 'N/N', '(S\\NP)\\((S\\NP)/NP)'] if lang == 'en' else
                                         ['NP[k1=a,k2=b,k3=c]/NP[k1=a,k2=b,k3=c]', 'S[k1=X1,k2=X2,k3=c]/S[k1=X1,k2=X2,k3=c]', 'S[k1=a,k2=b,k3=c]'])]
-    table = {}
+    import collections
+    table = collections.defaultdict(list) if table_kind == 'defaultdict' else {}
     targets = []
     for i, k in enumerate(keys):
         if k in table:        # equal keys collapse, as in a real dict
@@ -268,12 +269,15 @@ def h_unary(d, lang, nkeys, sk, lf):
         table[k] = ts
         targets.append((k, ts))
     sx0 = snapshot(x)
+    nkeys_before = len(table)
     try:
         got = g.apply_unary_rules(x, table)
     except Exception as e:
         return ('unary.raises:' + type(e).__name__, lang, sym_str(x))
     if snapshot(x) != sx0:
         return ('unary.argument-mutated',)
+    if len(table) != nkeys_before:
+        return ('unary.table-mutated', lang, table_kind)
     exp = []
     for k, ts in targets:
         if S.ceq(k, x):
@@ -362,5 +366,7 @@ def obligations(tier):
                 if nkeys * nleaves(sk) > (3 if q else 6):
                     continue
                 yield Obligation('C14.unary[%s,keys=%d,%s]' % (lang, nkeys, shape_name(sk)), 'h_unary', dict(lang=lang, nkeys=nkeys, sk=sk, lf=1 if lang == 'ja' else 2), cost=10)
+                if nkeys == 1:
+                    yield Obligation('C14.unary[%s,keys=1,%s,defaultdict table]' % (lang, shape_name(sk)), 'h_unary', dict(lang=lang, nkeys=1, sk=sk, lf=1, table_kind='defaultdict'), cost=10)
     for sx, sy in (('a', 'a'), (('a', 'a'), 'a')):
         yield Obligation('C14.apply_rules[%s,%s]' % (shape_name(sx), shape_name(sy)), 'h_apply_rules', dict(sx=sx, sy=sy), cost=10)
